@@ -138,6 +138,13 @@ def put(it, m, k, v):
     st.mdom = z3.Store(st.mdom, m.id, z3.Store(z3.Select(st.mdom, m.id), k, z3.BoolVal(True)))
 
 
+def delete(it, m, k):
+    if rank_ghost(m) is not None:
+        raise Unsupported("del on a measured visited table")
+    st = state(it)
+    st.mdom = z3.Store(st.mdom, m.id, z3.Store(z3.Select(st.mdom, m.id), k, z3.BoolVal(False)))
+
+
 def new_map(it, spec, items):
     st = state(it)
     ident = st.mnext
@@ -272,4 +279,5 @@ def install(w):
     def f_fresh_before(it, m):
         st = state(it)
         return VBool(z3.And(0 <= m.id, m.id < st.mnext))
-    w.spec_funcs.update({"mhas": f_mhas, "mget": f_mget, "allocated": f_fresh_before})
+    w.spec_funcs.update({"mhas": f_mhas, "mget": f_mget, "allocated": f_fresh_before,
+                         "mkey": lambda it, k: VInt(key_of(it, k))})
